@@ -50,6 +50,46 @@ func runStorage(id string, toks []string) (res string) {
 	for _, t := range toks[1:] {
 		p := strings.Split(t, ":")
 		switch p[0] {
+		case "CG":
+			// CG:<key>:<v1>:<v2>:<rounds>  the key is overwritten with v1, v2, v1, ... while another goroutine keeps reading it:
+			// every read returns one of the two values
+			key, v1, v2 := string(unhex(p[1])), unhex(p[2]), unhex(p[3])
+			rounds, _ := strconv.Atoi(p[4])
+			st.Set(key, v1)
+			res := "cg=ok"
+			stop := make(chan struct{})
+			done := make(chan string, 1)
+			go func() {
+				bad := ""
+				for n := 0; bad == ""; n++ {
+					select {
+					case <-stop:
+						done <- bad
+						return
+					default:
+					}
+					got, err := st.Get(key)
+					if err != nil {
+						bad = fmt.Sprintf("cg=not-found@read%d", n)
+					} else if !bytes.Equal(got, v1) && !bytes.Equal(got, v2) {
+						bad = fmt.Sprintf("cg=other-value@read%d:%d_bytes", n, len(got))
+					}
+				}
+				<-stop
+				done <- bad
+			}()
+			for r := 0; r < rounds; r++ {
+				if r%2 == 0 {
+					st.Set(key, v2)
+				} else {
+					st.Set(key, v1)
+				}
+			}
+			close(stop)
+			if b := <-done; b != "" {
+				res = b
+			}
+			out = append(out, res)
 		case "CS":
 			// CS:<key>:<v1>:<v2>:<rounds>  two goroutines set the key at the same time, round after round: both sets succeed and
 			// the key holds one of the two values, in full
